@@ -120,6 +120,15 @@ where
         }
     }
 
+    /// Read-only snapshot of the search tree: `(state, parent index)` per node.
+    #[cfg(feature = "verif")]
+    pub fn verif_tree(&self) -> Vec<(S, Option<usize>)> {
+        self.tree
+            .iter()
+            .map(|n| (n.state.clone(), n.parent_index))
+            .collect()
+    }
+
     fn reconstruct_path(&self, start_node_idx: usize) -> Path<S> {
         let mut path_states = Vec::new();
         let mut current_index = Some(start_node_idx);
@@ -178,6 +187,10 @@ where
         loop {
             // 1. Check for timeout
             if start_time.elapsed() > timeout {
+                return Err(PlanningError::Timeout);
+            }
+            #[cfg(feature = "verif")]
+            if !crate::verif::take_tick() {
                 return Err(PlanningError::Timeout);
             }
 
